@@ -64,17 +64,23 @@ def replay_alloc(sc):
 
 def replay_budget(sc):
     theta = float(Fraction(sc["theta"]))
-    # tolerance of the bias test: largest rem accepted by criteria_giles for rmse = 1, alpha = 1, found by bisection on the real function
-    lo, hi = 0.0, 10.0
-    for _ in range(60):
-        mid = (lo + hi) / 2
-        if CR.criteria_giles(1.0, np.array([mid, mid, mid]), 1.0):
-            lo = mid
-        else:
-            hi = mid
-    tau = lo
-    tot = tau**2 + (1 - theta)
-    return tot > 1 + 1e-9, f"bias tolerance of criteria_giles = {tau:.6f}*rmse, variance share of compute_mc_paths_giles = {1 - theta:.4f}: tau^2 + (1-theta) = {tot:.6f} > 1"
+    # tolerance of the bias test: largest rem accepted by criteria_giles for the target rmse (alpha = 1), found by bisection on the real function
+    worst = None
+    for rmse in [float(Fraction(sc["rmse"]))] if sc.get("rmse") else [1.0, 0.25, 0.01]:
+        lo, hi = 0.0, 10.0 * max(1.0, rmse)
+        for _ in range(80):
+            mid = (lo + hi) / 2
+            if CR.criteria_giles(1.0, np.array([mid, mid, mid]), rmse):
+                lo = mid
+            else:
+                hi = mid
+        tau = lo / rmse
+        tot = tau**2 + (1 - theta)
+        if worst is None or tot > worst[0]:
+            worst = (tot, tau, rmse)
+    tot, tau, rmse = worst
+    return tot > 1 + 1e-9, (f"rmse = {rmse!r}: bias tolerance of criteria_giles = {tau:.6f}*rmse, variance share of compute_mc_paths_giles = {1 - theta:.4f}: "
+                            f"(tau^2 + (1-theta)) = {tot:.6f} (must be <= 1)")
 
 
 def h_alloc(ctx, n, zero_cost):
@@ -141,7 +147,7 @@ def h_budget(ctx, alpha):
         return any(mentions(c, names) for c in term.children())
 
     tau = SymReal(rhs)
-    rp = (replay_budget, lambda m: {"theta": str(theta)})
+    rp = (replay_budget, lambda m: {"theta": str(theta), "rmse": str(m.frac("rmse"))})
     ctx.prove("C06.tolerance_depends_only_on_rmse", not mentions(rhs, {"m0", "m1", "m2"}), info={"alpha": alpha})
     ctx.prove("C06.bias_tolerance_squared_plus_variance_share_within_rmse_squared", tau * tau + (1 - theta) * rmse * rmse <= rmse * rmse,
               info={"alpha": alpha, "theta": str(theta)}, replay=rp)
